@@ -1,11 +1,17 @@
-//! C11: drives real arenas with op histories; mirrors the Coq client (theories/Bump.v).
+//! C11: drives real arenas with op histories; mirrors the Coq client (theories/Bump.v) and,
+//! for the K* ops, the arena's client containers of src/arena/string.rs (theories/BumpVec.v):
+//! ArenaString and Vec<u32, &Arena> living in the same arena as the raw blocks.  Every
+//! container has a shadow copy of its contents in an ordinary Vec<u8>; its buffer is a
+//! ledger block like any other (disjointness, bounds, byte-for-byte re-read after each op).
 use std::alloc::{Allocator, Layout};
 use std::fmt::Write as _;
 use std::fs;
+use std::ops::Bound;
 use std::process::ExitCode;
 use std::ptr::NonNull;
 
-use naijascript::arena::Arena;
+use naijascript::arena::{Arena, ArenaString};
+use naijascript::arena_format;
 
 struct Blk {
     id: i64,
@@ -14,6 +20,85 @@ struct Blk {
     al: usize,
     init: usize,
     shadow: Vec<u8>,
+    owner: Option<i64>,
+}
+
+enum Cont {
+    S(ArenaString<'static>),
+    V(Vec<u32, &'static Arena>),
+}
+
+impl Cont {
+    fn esz(&self) -> usize {
+        match self {
+            Cont::S(_) => 1,
+            Cont::V(_) => 4,
+        }
+    }
+    /// (address, length in bytes, capacity in bytes)
+    fn raw(&self) -> (usize, usize, usize) {
+        match self {
+            Cont::S(s) => (s.as_bytes().as_ptr() as usize, s.len(), s.capacity()),
+            Cont::V(v) => (v.as_ptr() as usize, v.len() * 4, v.capacity() * 4),
+        }
+    }
+    fn bytes(&self) -> &[u8] {
+        match self {
+            Cont::S(s) => s.as_bytes(),
+            Cont::V(v) => unsafe { std::slice::from_raw_parts(v.as_ptr().cast::<u8>(), v.len() * 4) },
+        }
+    }
+}
+
+struct Kont {
+    cid: i64,
+    blk: Option<i64>,
+    cont: Cont,
+    shadow: Vec<u8>,
+}
+
+const CHUNK: usize = 65536;
+/// BumpVec.read_limit: clone / replace_once are driven on containers up to this many bytes
+const READ_LIMIT: usize = 2048;
+
+fn data(spec: &str) -> Vec<u8> {
+    if spec == "-" {
+        Vec::new()
+    } else if let Some(h) = spec.strip_prefix('x') {
+        (0..h.len() / 2).map(|i| u8::from_str_radix(&h[2 * i..2 * i + 2], 16).unwrap()).collect()
+    } else if let Some(r) = spec.strip_prefix('p') {
+        let (s, n) = r.split_once(':').unwrap();
+        let (s, n): (i64, i64) = (s.parse().unwrap(), n.parse().unwrap());
+        (0..n).map(|i| 32 + (s + 7 * i).rem_euclid(95) as u8).collect()
+    } else {
+        panic!("bad data spec {spec}")
+    }
+}
+
+fn is_cont(b: u8) -> bool {
+    (128..192).contains(&b)
+}
+
+/// str::is_char_boundary snapping (same definition as BumpVec.snap).
+fn snap(sh: &[u8], i: usize) -> usize {
+    let len = sh.len();
+    if len <= i {
+        len
+    } else if i == 0 {
+        0
+    } else if !is_cont(sh[i]) {
+        i
+    } else if !is_cont(sh[i - 1]) || i <= 1 {
+        i - 1
+    } else if !is_cont(sh[i - 2]) || i <= 2 {
+        i - 2
+    } else {
+        i - 3
+    }
+}
+
+fn to_u32s(d: &[u8]) -> Vec<u32> {
+    d.chunks_exact(4).map(|c| u32::from_le_bytes([c[0], c[1], c[2], c[3]])).collect()
 }
 
 fn pattern(seed: i64, i: i64) -> u8 {
@@ -21,14 +106,114 @@ fn pattern(seed: i64, i: i64) -> u8 {
 }
 
 struct Client {
-    arena: Arena,
+    arena: &'static Arena,
     base: usize,
     live: Vec<Blk>, // newest first
     next: i64,
     marks: Vec<usize>,
+    konts: Vec<Kont>, // oldest first
+    knext: i64,
+    /// comment appended to the output line after " #" (not compared with the model):
+    /// how the container's buffer changed in this op
+    tag: std::cell::RefCell<String>,
+}
+
+impl Drop for Client {
+    fn drop(&mut self) {
+        self.konts.clear();
+        unsafe { drop(Box::from_raw(std::ptr::from_ref::<Arena>(self.arena).cast_mut())) };
+    }
 }
 
 impl Client {
+    fn kpick(&self, idx: usize) -> Option<usize> {
+        if self.konts.is_empty() { None } else { Some(idx % self.konts.len()) }
+    }
+
+    /// history guard (BumpVec.guard_ok): the worst-case request certainly fits
+    fn guard(&self, al: usize, need: usize) -> bool {
+        let x = self.arena.offset() + al + need;
+        ((x + CHUNK - 1) & !(CHUNK - 1)) <= self.arena.verif_capacity()
+    }
+
+    fn guard_grow(&self, j: usize, add_elems: usize) -> bool {
+        let k = &self.konts[j];
+        let esz = k.cont.esz();
+        let (_, lenb, capb) = k.cont.raw();
+        let (len, cap) = (lenb / esz, capb / esz);
+        if add_elems <= cap - len {
+            true
+        } else {
+            self.guard(esz, 8.max((cap * 2).max(len + add_elems)) * esz)
+        }
+    }
+
+    /// containers whose buffer left the ledger are gone
+    fn prune(&mut self) {
+        let live = &self.live;
+        self.konts.retain(|k| match k.blk {
+            None => true,
+            Some(id) => live.iter().any(|b| b.id == id),
+        });
+    }
+
+    /// brings the ledger block of container j up to date and prints the container's view
+    fn sync(&mut self, j: usize, out: &mut String) {
+        let (ptr, lenb, capb) = self.konts[j].cont.raw();
+        let esz = self.konts[j].cont.esz();
+        if capb == 0 {
+            assert!(self.konts[j].blk.is_none(), "a container lost its buffer");
+            out.push_str("vec 0 0 0");
+            return;
+        }
+        let off = ptr - self.base;
+        let shadow = self.konts[j].shadow.clone();
+        match self.konts[j].blk {
+            Some(id) => {
+                let b = self.live.iter_mut().find(|b| b.id == id).expect("owned block in ledger");
+                let newest = self.arena.offset() == off + capb;
+                *self.tag.borrow_mut() = if b.off != off {
+                    " #reloc".to_string()
+                } else if b.len < capb {
+                    " #inplace".to_string()
+                } else if b.len > capb {
+                    " #shrunk".to_string()
+                } else if newest {
+                    " #same-tail".to_string()
+                } else {
+                    " #same-inner".to_string()
+                };
+                b.off = off;
+                b.len = capb;
+                b.init = shadow.len();
+                b.shadow = shadow;
+            }
+            None => {
+                let id = self.next;
+                self.next += 1;
+                self.live.insert(
+                    0,
+                    Blk { id, off, len: capb, al: esz, init: shadow.len(), shadow, owner: Some(self.konts[j].cid) },
+                );
+                self.konts[j].blk = Some(id);
+                *self.tag.borrow_mut() = " #first".to_string();
+            }
+        }
+        let _ = write!(out, "vec {off} {lenb} {capb}");
+    }
+
+    fn add_kont(&mut self, cont: Cont, shadow: Vec<u8>, out: &mut String) {
+        let cid = self.knext;
+        self.knext += 1;
+        self.konts.push(Kont { cid, blk: None, cont, shadow });
+        let j = self.konts.len() - 1;
+        self.sync(j, out);
+    }
+
+    fn owned(&self, k: usize) -> bool {
+        self.live[k].owner.is_some()
+    }
+
     fn ptr(&self, off: usize) -> NonNull<u8> {
         NonNull::new((self.base + off) as *mut u8).unwrap()
     }
@@ -45,6 +230,7 @@ impl Client {
         unsafe { self.arena.reset(to) };
         self.live.retain(|b| b.off + b.len <= to);
         self.marks.retain(|m| *m <= to);
+        self.prune();
     }
 
     fn observe(&self, out: &mut String) {
@@ -83,6 +269,19 @@ impl Client {
                 let _ = write!(out, " OUTOFBOUNDS id={}", b.id);
             }
         }
+        // Containers: the contents seen through the container's own API equal the shadow copy.
+        for k in &self.konts {
+            let b = k.cont.bytes();
+            if b.len() != k.shadow.len() {
+                let _ = write!(out, " LENGTH cid={} {}!={}", k.cid, b.len(), k.shadow.len());
+            } else if let Some(i) = (0..b.len()).find(|&i| b[i] != k.shadow[i]) {
+                let _ = write!(out, " CONTENT cid={} at={}", k.cid, i);
+            }
+            let (_, lenb, capb) = k.cont.raw();
+            if lenb > capb {
+                let _ = write!(out, " LENGTH cid={} over capacity", k.cid);
+            }
+        }
         for i in 0..self.live.len() {
             for j in (i + 1)..self.live.len() {
                 let (a, b) = (&self.live[i], &self.live[j]);
@@ -91,6 +290,8 @@ impl Client {
                 }
             }
         }
+        out.push_str(&self.tag.borrow());
+        self.tag.borrow_mut().clear();
         out.push('\n');
     }
 }
@@ -99,18 +300,33 @@ pub fn run(input: &str, output: &str) -> ExitCode {
     let text = fs::read_to_string(input).expect("read input");
     let mut out = String::new();
     let mut client: Option<Client> = None;
+    let mut dead = false;
     for line in text.lines() {
         let t: Vec<&str> = line.split_whitespace().collect();
         if t.is_empty() {
             continue;
         }
         if t[0] == "H" {
+            dead = false;
             let cap: usize = t[2].parse().unwrap();
-            let arena = Arena::new(cap).expect("reserve");
+            drop(client.take()); // frees the previous arena
+            let arena: &'static Arena = Box::leak(Box::new(Arena::new(cap).expect("reserve")));
             let base = arena.verif_base() as usize;
             // base modulo 2^32 is enough for every alignment the histories request
             let _ = writeln!(out, "H {} cap={} base={}", t[1], arena.verif_capacity(), base % (1usize << 32));
-            client = Some(Client { arena, base, live: Vec::new(), next: 0, marks: Vec::new() });
+            client = Some(Client {
+                arena,
+                base,
+                live: Vec::new(),
+                next: 0,
+                marks: Vec::new(),
+                konts: Vec::new(),
+                knext: 0,
+                tag: std::cell::RefCell::new(String::new()),
+            });
+            continue;
+        }
+        if dead {
             continue;
         }
         let c = client.as_mut().expect("history header first");
@@ -132,7 +348,7 @@ pub fn run(input: &str, output: &str) -> ExitCode {
                         let init = if t[0] == "Z" { len } else { 0 };
                         c.live.insert(
                             0,
-                            Blk { id: c.next, off, len, al, init, shadow: vec![0u8; init] },
+                            Blk { id: c.next, off, len, al, init, shadow: vec![0u8; init], owner: None },
                         );
                         c.next += 1;
                         let _ = write!(out, "blk 1 {off} {len}");
@@ -144,6 +360,7 @@ pub fn run(input: &str, output: &str) -> ExitCode {
             }
             "G" => match c.pick(n(1) as usize) {
                 None => out.push_str("none"),
+                Some(k) if c.owned(k) => out.push_str("none"),
                 Some(k) => {
                     let zeroed = n(3) != 0;
                     let (off, len, al) = (c.live[k].off, c.live[k].len, c.live[k].al);
@@ -178,6 +395,7 @@ pub fn run(input: &str, output: &str) -> ExitCode {
             },
             "S" => match c.pick(n(1) as usize) {
                 None => out.push_str("none"),
+                Some(k) if c.owned(k) => out.push_str("none"),
                 Some(k) => {
                     let (off, len, al) = (c.live[k].off, c.live[k].len, c.live[k].al);
                     if off + len == c.arena.offset() {
@@ -193,6 +411,7 @@ pub fn run(input: &str, output: &str) -> ExitCode {
                         let noff = c.arena.offset();
                         c.live.retain(|b| b.off + b.len <= noff);
                         c.marks.retain(|m| *m <= noff);
+                        c.prune();
                         let _ = write!(out, "blk 1 {off} {nlen}");
                     } else {
                         out.push_str("none");
@@ -218,6 +437,7 @@ pub fn run(input: &str, output: &str) -> ExitCode {
             }
             "W" => match c.pick(n(1) as usize) {
                 None => out.push_str("none"),
+                Some(k) if c.owned(k) => out.push_str("none"),
                 Some(k) => {
                     let seed = n(2);
                     let (off, len) = (c.live[k].off, c.live[k].len);
@@ -247,10 +467,256 @@ pub fn run(input: &str, output: &str) -> ExitCode {
                     let _ = write!(out, "blk 1 {mk} 0");
                 }
             }
+            k if k.starts_with('K') => kop(c, &t, &mut out),
             other => panic!("unknown op {other}"),
         }
+        let mark = out.len();
         c.observe(&mut out);
+        // A history ends at its first oracle failure: the arena's contents are no longer what
+        // the shadow says, and going on could only turn the finding into a crash of this driver.
+        if ["CORRUPT", "MISALIGNED", "OUTOFBOUNDS", "OVERLAP", "CONTENT", "LENGTH"]
+            .iter()
+            .any(|w| out[mark..].contains(w))
+        {
+            dead = true;
+        }
     }
     fs::write(output, out).expect("write output");
     ExitCode::SUCCESS
+}
+
+/// Container ops (BumpVec.kstep).  Every growth path of src/arena/string.rs that is reachable
+/// through the crate's public API is driven here; the mapping op -> method is in lib/props/c11.py.
+fn kop(c: &mut Client, t: &[&str], out: &mut String) {
+    let n = |i: usize| -> usize { t[i].parse().unwrap() };
+    let arena = c.arena;
+    match t[0] {
+        // KN kind cap: new_in / with_capacity_in
+        "KN" => {
+            let (kind, cap) = (n(1), n(2));
+            let esz = if kind == 0 { 1 } else { 4 };
+            if cap > 0 && !c.guard(esz, 8.max(cap) * esz) {
+                out.push_str("none");
+                return;
+            }
+            let cont = match (kind, cap) {
+                (0, 0) => Cont::S(ArenaString::new_in(arena)),
+                (0, _) => Cont::S(ArenaString::with_capacity_in(cap, arena)),
+                (_, 0) => Cont::V(Vec::new_in(arena)),
+                _ => Cont::V(Vec::with_capacity_in(cap, arena)),
+            };
+            c.add_kont(cont, Vec::new(), out);
+        }
+        // KF variant data: from_str and the other constructors that take complete contents
+        "KF" => {
+            let d = data(t[2]);
+            if !d.is_empty() && !c.guard(1, 8.max(d.len())) {
+                out.push_str("none");
+                return;
+            }
+            let text = std::str::from_utf8(&d).expect("generator emits valid UTF-8");
+            let mk = || {
+                let mut v: Vec<u8, &'static Arena> = Vec::with_capacity_in(d.len(), arena);
+                v.extend_from_slice(&d);
+                v
+            };
+            let s = match n(1) {
+                0 => ArenaString::from_str(arena, text),
+                1 => unsafe { ArenaString::from_utf8_unchecked(mk()) },
+                _ => ArenaString::from_utf8_lossy_owned(mk()),
+            };
+            c.add_kont(Cont::S(s), d, out);
+        }
+        // KA data: arena_format!("{}", text) = new_in + one write_str
+        "KA" => {
+            let d = data(t[1]);
+            if !d.is_empty() && !c.guard(1, 8.max(d.len())) {
+                out.push_str("none");
+                return;
+            }
+            let text = std::str::from_utf8(&d).expect("generator emits valid UTF-8");
+            let s = arena_format!(arena, "{}", text);
+            c.add_kont(Cont::S(s), d, out);
+        }
+        // KD vi: Clone
+        "KD" => match c.kpick(n(1)) {
+            None => out.push_str("none"),
+            Some(j) => {
+                let esz = c.konts[j].cont.esz();
+                let sh = c.konts[j].shadow.clone();
+                if sh.len() > READ_LIMIT || (!sh.is_empty() && !c.guard(esz, 8.max(sh.len() / esz) * esz)) {
+                    out.push_str("none");
+                    return;
+                }
+                let cont = match &c.konts[j].cont {
+                    Cont::S(s) => Cont::S(s.clone()),
+                    Cont::V(v) => Cont::V(v.clone()),
+                };
+                c.add_kont(cont, sh, out);
+            }
+        },
+        // KP vi variant data: push_str / write_str / extend_from_slice
+        // KC vi variant cp:   push(char) / write_char           (strings only)
+        // KR vi cp count:     push_repeat                        (strings only)
+        "KP" | "KC" | "KR" => match c.kpick(n(1)) {
+            None => out.push_str("none"),
+            Some(j) => {
+                let sonly = t[0] != "KP";
+                let esz = c.konts[j].cont.esz();
+                if sonly && esz != 1 {
+                    out.push_str("none");
+                    return;
+                }
+                let mut d = match t[0] {
+                    "KP" => data(t[3]),
+                    "KC" => char::from_u32(n(3) as u32).unwrap().to_string().into_bytes(),
+                    _ => char::from_u32(n(2) as u32).unwrap().to_string().repeat(n(3)).into_bytes(),
+                };
+                d.truncate(d.len() / esz * esz);
+                if !c.guard_grow(j, d.len() / esz) {
+                    out.push_str("none");
+                    return;
+                }
+                let k = &mut c.konts[j];
+                match (&mut k.cont, t[0]) {
+                    (Cont::S(s), "KP") => {
+                        let text = std::str::from_utf8(&d).expect("valid UTF-8");
+                        match n(2) {
+                            0 => s.push_str(text),
+                            1 => std::fmt::Write::write_str(s, text).unwrap(),
+                            _ => unsafe { s.as_mut_vec() }.extend_from_slice(&d),
+                        }
+                    }
+                    (Cont::V(v), "KP") => v.extend_from_slice(&to_u32s(&d)),
+                    (Cont::S(s), "KC") => {
+                        let ch = char::from_u32(n(3) as u32).unwrap();
+                        match n(2) {
+                            0 => s.push(ch),
+                            _ => write!(s, "{ch}").unwrap(),
+                        }
+                    }
+                    (Cont::S(s), _) => s.push_repeat(char::from_u32(n(2) as u32).unwrap(), n(3)),
+                    _ => unreachable!(),
+                }
+                k.shadow.extend_from_slice(&d);
+                c.sync(j, out);
+            }
+        },
+        // KV vi add / KE vi add: reserve / reserve_exact
+        "KV" | "KE" => match c.kpick(n(1)) {
+            None => out.push_str("none"),
+            Some(j) => {
+                let add = n(2);
+                if !c.guard_grow(j, add) {
+                    out.push_str("none");
+                    return;
+                }
+                match (&mut c.konts[j].cont, t[0]) {
+                    (Cont::S(s), "KV") => s.reserve(add),
+                    (Cont::S(s), _) => s.reserve_exact(add),
+                    (Cont::V(v), "KV") => v.reserve(add),
+                    (Cont::V(v), _) => v.reserve_exact(add),
+                }
+                c.sync(j, out);
+            }
+        },
+        // KX vi form start end data: ArenaString::replace_range
+        // KO vi a b data:            replace_once_in_place(current[a..b], data)
+        "KX" | "KO" => match c.kpick(n(1)) {
+            None => out.push_str("none"),
+            Some(j) => {
+                if c.konts[j].cont.esz() != 1 {
+                    out.push_str("none");
+                    return;
+                }
+                let once = t[0] == "KO";
+                if once && c.konts[j].shadow.len() > READ_LIMIT {
+                    out.push_str("none");
+                    return;
+                }
+                let (a, b) = if once { (n(2), n(3)) } else { (n(3), n(4)) };
+                let d = data(t[if once { 4 } else { 5 }]);
+                let sh = c.konts[j].shadow.clone();
+                let s0 = snap(&sh, a);
+                let e0 = s0.max(snap(&sh, b));
+                // where the splice lands (the shadow's own search for replace_once)
+                let (s1, e1) = if once {
+                    let needle = &sh[s0..e0];
+                    match (0..=sh.len() - needle.len()).find(|&i| &sh[i..i + needle.len()] == needle) {
+                        Some(i) => (i, i + needle.len()),
+                        None => unreachable!("the needle is a substring"),
+                    }
+                } else {
+                    (s0, e0)
+                };
+                let del = e1 - s1;
+                if del == 0 && d.is_empty() && once {
+                    // replace_range(0..0, "") returns before touching anything
+                }
+                if d.len() > del && !c.guard_grow(j, d.len() - del) {
+                    out.push_str("none");
+                    return;
+                }
+                let text = std::str::from_utf8(&d).expect("valid UTF-8").to_owned();
+                let Cont::S(s) = &mut c.konts[j].cont else { unreachable!() };
+                if once {
+                    let old = std::str::from_utf8(&sh[s0..e0]).expect("snapped").to_owned();
+                    s.replace_once_in_place(&old, &text);
+                } else {
+                    let form = n(2);
+                    let len = sh.len();
+                    match form {
+                        1 if e0 > s0 => s.replace_range(s0..=e0 - 1, &text),
+                        2 if s0 == 0 => s.replace_range(..e0, &text),
+                        3 if e0 == len => s.replace_range(s0.., &text),
+                        4 if s0 == 0 && e0 == len => s.replace_range(.., &text),
+                        5 if s0 >= 1 && e0 > s0 => {
+                            s.replace_range((Bound::Excluded(s0 - 1), Bound::Included(e0 - 1)), &text);
+                        }
+                        6 if s0 >= 1 => s.replace_range((Bound::Excluded(s0 - 1), Bound::Excluded(e0)), &text),
+                        _ => s.replace_range(s0..e0, &text),
+                    }
+                }
+                let k = &mut c.konts[j];
+                k.shadow.splice(s1..e1, d.iter().copied());
+                c.sync(j, out);
+            }
+        },
+        // KS vi: shrink_to_fit (only where the API allows it: the buffer is the last block)
+        "KS" => match c.kpick(n(1)) {
+            None => out.push_str("none"),
+            Some(j) => {
+                let (ptr, lenb, capb) = c.konts[j].cont.raw();
+                if capb > 0 && ptr - c.base + capb == c.arena.offset() && 0 < lenb && lenb < capb {
+                    match &mut c.konts[j].cont {
+                        Cont::S(s) => s.shrink_to_fit(),
+                        Cont::V(v) => v.shrink_to_fit(),
+                    }
+                    let id = c.konts[j].blk.unwrap();
+                    c.live.iter_mut().find(|b| b.id == id).unwrap().len = lenb;
+                    let noff = c.arena.offset();
+                    c.live.retain(|b| b.off + b.len <= noff);
+                    c.marks.retain(|m| *m <= noff);
+                    c.prune();
+                    let j = c.konts.iter().position(|k| k.blk == Some(id)).expect("container survives");
+                    c.sync(j, out);
+                } else {
+                    out.push_str("none");
+                }
+            }
+        },
+        // KZ vi: clear
+        "KZ" => match c.kpick(n(1)) {
+            None => out.push_str("none"),
+            Some(j) => {
+                match &mut c.konts[j].cont {
+                    Cont::S(s) => s.clear(),
+                    Cont::V(v) => v.clear(),
+                }
+                c.konts[j].shadow.clear();
+                c.sync(j, out);
+            }
+        },
+        other => panic!("unknown container op {other}"),
+    }
 }
